@@ -1,5 +1,6 @@
 import Driver.Util
 import Sqfs.Spec.IoLoops
+import Sqfs.Model.XfrmStream
 /-
 `sqfsmodel c12`: one scenario per line, same protocol as harness/h_c12.c.
 
@@ -111,6 +112,7 @@ def errCode : Err → String
   | .ok => "0"
   | .io => "-" ++ toString Sqfs.Consts.errIo
   | .oob => "-" ++ toString Sqfs.Consts.errOutOfBounds
+  | .compressor => "-" ++ toString Sqfs.Consts.errCompressor
   | .fuel => "fuel"
 
 def traceTok (os : OS) : String :=
@@ -145,6 +147,11 @@ def showObs : Obs → String
 def showOstream (o : OStream) : String :=
   "out=" ++ dtok o.out ++ " size=" ++ toString o.size ++ " sparse=" ++ toString o.sparse
 
+def oopLen : OOp → Nat
+  | .data d => d.length
+  | .hole n => n
+  | .flush => 0
+
 def step (line : String) : String :=
   match words line with
   | ["readat", d, off, size, sc] =>
@@ -176,6 +183,41 @@ def step (line : String) : String :=
         "st=" ++ (if c.s.eof then "1" else "0") ++ "," ++ toString c.s.off ++ "," ++ toString c.s.buf.length ++
         " " ++ showOstream c.o ++ " ln=" ++ toString c.ln ++ tail os
     | _, _, _, _ => "bad-op"
+  | ["xistream", b, bx, fl, d, ops, sc] =>
+    match b.toNat?, bx.toNat?, parseData d, parseOps ops, parseScript sc with
+    | some B, some BX, some data, some ops, some sc =>
+      if (fl ≠ "s" ∧ fl ≠ "n") ∨ B = 0 then "bad-op" else
+      let limit := 4 * data.length + 1000
+      match runOps (xfrmStream (fileStream B) toyCodec BX limit)
+          ⟨⟨IStream.init data, 0, 0, []⟩, ⟨[], 0, 0, fl = "n"⟩, 0⟩ ops ⟨sc, []⟩ with
+      | (obs, c, os) =>
+        " ".intercalate (obs.map showObs) ++ (if obs.isEmpty then "" else " ") ++
+        "xst=" ++ toString c.s.off ++ "," ++ toString c.s.buf.length ++ "," ++ toString c.s.k ++
+        " st=" ++ (if c.s.wrapped.eof then "1" else "0") ++ "," ++ toString c.s.wrapped.off ++ "," ++
+        toString c.s.wrapped.buf.length ++
+        " " ++ showOstream c.o ++ " ln=" ++ toString c.ln ++ tail os
+    | _, _, _, _, _ => "bad-op"
+  | ["xspec", b, bx, d, ops] =>
+    match b.toNat?, bx.toNat?, parseData d, parseOps ops with
+    | some B, some BX, some data, some ops =>
+      if B = 0 then "bad-op" else
+      let limit := 4 * data.length + 1000
+      match runOps (xfrmStream (Sqfs.IoLoops.Spec.idealStream B data) toyCodec BX limit)
+          ⟨⟨⟨0, 0⟩, 0, 0, []⟩, ⟨[], 0, 0, false⟩, 0⟩ ops OS.full with
+      | (obs, c, _) =>
+        " ".intercalate (obs.map showObs) ++ (if obs.isEmpty then "" else " ") ++
+        "out=" ++ dtok c.o.out ++ " ln=" ++ toString c.ln
+    | _, _, _, _ => "bad-op"
+  | ["xostream", bx, fl, ops, sc] =>
+    match bx.toNat?, parseOOps ops, parseScript sc with
+    | some BX, some ops, some sc =>
+      if fl ≠ "s" ∧ fl ≠ "n" then "bad-op" else
+      let limit := 4 * (ops.map fun o => (oopLen o)).sum + 1000
+      match xRunOOps toyCodec BX limit 0 ⟨⟨[], 0, 0, fl = "n"⟩, 0, []⟩ ops ⟨sc, []⟩ with
+      | ((e, idx), x, os) =>
+        "rc=" ++ errCode e ++ "@" ++ toString idx ++ " inbuf=" ++ toString x.inbuf.length ++ " k=" ++ toString x.k ++
+        " " ++ showOstream x.o ++ tail os
+    | _, _, _ => "bad-op"
   | ["spec", b, d, ops] =>
     match b.toNat?, parseData d, parseOps ops with
     | some B, some data, some ops =>
